@@ -62,6 +62,117 @@ Theorem C07_inactive_define_undef_inert : forall rec fs fname inc asm p line l,
   line_step rec fs fname inc asm p line l = POk p.
 Proof. exact inactive_define_undef_inert. Qed.
 
+(** * the text and the directives of a group that is not selected raise no errors
+    (the repaired defect: an apostrophe-and-quote text line and a #pragma inside an "#if 0" group
+    stopped the compilation) *)
+From CC Require Import Model.ScanSpec Proofs.SkipFacts.
+
+(** In a state that is not Active, a line whose scanner output ([scan_parts]: the parts the
+    scanner hands over whether the scan ended normally or at a string literal that never
+    closes) is not a directive line -- its trimmed text does not start with "#", before and
+    after macro substitution -- is processed without error and changes nothing but the scanner
+    state.  Whatever the line contains (unterminated string literals included) and whatever the
+    scanner state is (no hypothesis about an unfinished block comment is needed). *)
+Theorem C07_skipped_text_never_errors : forall rec fs fname inc asm p line buf out ins sc,
+  p_state p <> Active ->
+  scan_parts (scan_line asm buf (c_scan (p_ctx p))) = (out, ins, sc) ->
+  starts_with "#" (trim out) = false ->
+  starts_with "#" (trim (replace_all_c (c_macros (p_ctx p)) out)) = false ->
+  line_step rec fs fname inc asm p line buf = POk (set_scan p sc).
+Proof. exact skipped_text_never_errors. Qed.
+
+(** spelt out: same output text, line table, macros, conditional state and stack *)
+Theorem C07_skipped_text_keeps_everything : forall rec fs fname inc asm p line buf out ins sc,
+  p_state p <> Active ->
+  scan_parts (scan_line asm buf (c_scan (p_ctx p))) = (out, ins, sc) ->
+  starts_with "#" (trim out) = false ->
+  starts_with "#" (trim (replace_all_c (c_macros (p_ctx p)) out)) = false ->
+  exists p', line_step rec fs fname inc asm p line buf = POk p'
+             /\ p_out p' = p_out p /\ p_map p' = p_map p
+             /\ c_macros (p_ctx p') = c_macros (p_ctx p)
+             /\ p_state p' = p_state p /\ p_stack p' = p_stack p
+             /\ c_scan (p_ctx p') = sc.
+Proof. exact skipped_text_keeps_everything. Qed.
+
+(** an unterminated string literal in SELECTED text is still an error *)
+Theorem C07_unterminated_string_selected_is_error : forall rec fs fname inc asm p line buf out ins sc,
+  p_state p = Active ->
+  scan_line asm buf (c_scan (p_ctx p)) = ScanUnterminated out ins sc ->
+  line_step rec fs fname inc asm p line buf = PErr (mkErr ESyntax fname line inc "Unterminated string").
+Proof. exact unterminated_string_selected_is_error. Qed.
+
+(** a directive the machine does not know (#pragma ...) is ignored in a state that is not Active *)
+Theorem C07_skipped_unknown_directive_ignored : forall rec fs fname inc asm p line buf out ins sc,
+  p_state p <> Active ->
+  scan_parts (scan_line asm buf (c_scan (p_ctx p))) = (out, ins, sc) ->
+  early_directive (trim out) = false ->
+  known_directive (fst (directive_parts (trim (replace_all_c (c_macros (p_ctx p)) out)))) = false ->
+  line_step rec fs fname inc asm p line buf = POk (set_scan p sc).
+Proof. exact skipped_unknown_directive_ignored. Qed.
+
+(** ... and still an error in selected text *)
+Theorem C07_unknown_directive_selected_is_error : forall rec fs fname inc asm p line buf out sc,
+  p_state p = Active ->
+  scan_line asm buf (c_scan (p_ctx p)) = ScanOk out true sc ->
+  early_directive (trim out) = false ->
+  starts_with "#" (trim (replace_all_c (c_macros (p_ctx p)) out)) = true ->
+  known_directive (fst (directive_parts (trim (replace_all_c (c_macros (p_ctx p)) out)))) = false ->
+  line_step rec fs fname inc asm p line buf
+  = PErr (mkErr ESyntax fname line inc "Unrecognised preprocessor directive").
+Proof. exact unknown_directive_selected_is_error. Qed.
+
+(** #if in a state that is not Active: pushed, Skip -- with or without an expression
+    ([arg = None]), which is not looked at *)
+Theorem C07_skipped_if_pushes_skip : forall rec fs fname inc asm p line buf out sc arg,
+  p_state p <> Active ->
+  scan_parts (scan_line asm buf (c_scan (p_ctx p))) = (out, true, sc) ->
+  early_directive (trim out) = false ->
+  directive_parts (trim (replace_all_c (c_macros (p_ctx p)) out)) = ("#if", arg) ->
+  line_step rec fs fname inc asm p line buf
+  = POk (set_state (set_scan p sc) Skip (p_state p :: p_stack p)).
+Proof. exact skipped_if_pushes_skip. Qed.
+
+Theorem C07_if_without_expression_selected_is_error : forall rec fs fname inc asm p line buf out sc,
+  p_state p = Active ->
+  scan_line asm buf (c_scan (p_ctx p)) = ScanOk out true sc ->
+  early_directive (trim out) = false ->
+  directive_parts (trim (replace_all_c (c_macros (p_ctx p)) out)) = ("#if", None) ->
+  line_step rec fs fname inc asm p line buf
+  = PErr (mkErr ESyntax fname line inc "Expected expression after `#if`").
+Proof. exact if_without_expression_selected_is_error. Qed.
+
+(** #elif in a state that is not Inactive: Skip, same stack -- with or without an expression *)
+Theorem C07_elif_not_inactive_skips : forall rec fs fname inc asm p line buf out sc arg,
+  p_state p <> Inactive ->
+  scan_gives (p_state p) (scan_line asm buf (c_scan (p_ctx p))) out true sc ->
+  early_directive (trim out) = false ->
+  directive_parts (trim (replace_all_c (c_macros (p_ctx p)) out)) = ("#elif", arg) ->
+  line_step rec fs fname inc asm p line buf = POk (set_state (set_scan p sc) Skip (p_stack p)).
+Proof. exact elif_not_inactive_skips. Qed.
+
+Theorem C07_elif_without_expression_inactive_is_error : forall rec fs fname inc asm p line buf out sc,
+  p_state p = Inactive ->
+  scan_parts (scan_line asm buf (c_scan (p_ctx p))) = (out, true, sc) ->
+  early_directive (trim out) = false ->
+  directive_parts (trim (replace_all_c (c_macros (p_ctx p)) out)) = ("#elif", None) ->
+  line_step rec fs fname inc asm p line buf
+  = PErr (mkErr ESyntax fname line inc "Expected expression after `#elif`").
+Proof. exact elif_without_expression_inactive_is_error. Qed.
+
+(** the reported input, and the same lines in selected text *)
+Example C07_skipped_group_example :
+  match run_cpp [] "m.c" [] (map (fun l => l ++ nl)
+        ["#if 0"; "this isn't ""closed"; "#pragma once"; "#endif"; "ok"]) with
+  | POk p => p_out p = "ok" ++ nl
+  | PErr _ => False
+  end.
+Proof. vm_compute. reflexivity. Qed.
+
+Example C07_unterminated_selected_example :
+  run_cpp [] "m.c" [] (map (fun l => l ++ nl) ["this isn't ""closed"; "#pragma once"; "ok"])
+  = PErr (mkErr ESyntax "m.c" 1 None "Unterminated string").
+Proof. vm_compute. reflexivity. Qed.
+
 (** the evaluator is C's on expressions over 0, 1, ! and == *)
 Theorem C07_evaluate_bool_correct : forall e : bexp, evaluate (print e) = EvOk (value e) "".
 Proof. exact evaluate_bool_correct. Qed.
